@@ -185,6 +185,47 @@ def run(ck, F):
             got = p['accessors'].get('type')
             ck.check(R_given, f'{sid}#{i}', got == want, f'{fid}: type() yields `{got}`, expected the type argument `{want}`',
                      loc=f['loc'], fn=fid)
+    # casts and literals: the target type handed to the factory is the type reported, on every path (a path that hands the
+    # request on to another factory of the family must hand the same type on)
+    R_tgt = ck.rule('C09.target-type-given', 'a factory of a cast or a literal reports the target type it was asked for: on every returning '
+                    'path the node\'s type() is the factory\'s type parameter itself, and a path that delegates to another factory of the '
+                    'family passes that very parameter on -- no path substitutes a variant of it (unqualified, canonical, ...)', floor=6)
+    fam = {}
+    for f in wire.all_factories(F):
+        rt = (f.get('ret') or '').replace('const ', '').rstrip('*& ').strip()
+        if not rt or rt not in F.rec:
+            continue
+        ifc = rt if rt in IS_TYPE else next((a for a in F.ancestors(rt) if a in IS_TYPE), None)
+        tps = [i for i, p in enumerate(f['params']) if p['t'].replace(' ', '') == 'constipr::Type&']
+        if ifc is None or len(tps) != 1:
+            continue
+        fam[f['id']] = (f, tps[0])
+    for fid, (f, k) in sorted(fam.items()):
+        sid = '::'.join(contracts.fn_qname(fid).split('::')[-2:]) + '(' + ', '.join(contracts.short(p['t']) for p in f['params']) + ')'
+        try:
+            outs = [o for o in S.run(fid) if o[1] == 'return']
+        except Unsupported as e:
+            raise AnalysisBroken(f'{fid}: {e}')
+        for pi, (st, _k, v) in enumerate(outs):
+            t = v
+            while isinstance(t, tuple) and t and t[0] in ('addr', 'deref', 'castto'):
+                t = t[1] if t[0] != 'castto' else t[2]
+            when = contracts.render_conds(st.conds, st, {})[:80]
+            if isinstance(t, tuple) and t[:1] == ('obj',) and t[1] in st.heap:
+                a = contracts.observe(S, F, st, t, {t[1]: 'R'}, accessor_filter=lambda n: n == 'type')
+                ck.check(R_tgt, f'{sid}#{pi}', a.get('type') == f'P{k}',
+                         f'{fid} (when {when or "always"}): type() of the node is `{a.get("type")}`, the target type asked for is P{k}',
+                         loc=f['loc'], fn=fid)
+            elif isinstance(t, tuple) and t[:1] in (('call',), ('vcall',)) and t[1] in fam:
+                k2 = fam[t[1]][1]
+                arg = t[3][k2] if len(t[3]) > k2 else None
+                ck.check(R_tgt, f'{sid}#{pi}', arg == ('param', k),
+                         f'{fid} (when {when or "always"}): hands the request on to {contracts.fn_simple(t[1])} with the type '
+                         f'`{contracts.render(arg, st, {})}` instead of the target type P{k} it was asked for', loc=f['loc'], fn=fid)
+            else:
+                ck.check(R_tgt, f'{sid}#{pi}', False, f'{fid} (when {when or "always"}): returns `{contracts.render(v, st, {})[:100]}`, neither a '
+                         'node of its own nor the answer of a sibling factory', loc=f['loc'], fn=fid)
+
     # id-expression of a declaration: that declaration's type
     for fid, paths in cur.items():
         if fid == 'ipr::impl::expr_factory::make_id_expr(const ipr::Decl &)':
